@@ -16,7 +16,9 @@ RULE = ('element trees (depth<=3) built through the API from oracle-valid child 
         'public-API dump (class, attributes, value, xsd_check, ordered children) of e is identical before and after '
         'copying and equals the copy\'s; then a drawn mutation (attribute set / removed, value set, child added / '
         'removed, nested attribute set) is applied to the copy and the original\'s dump and text must not change, '
-        'and vice versa.  Non-trivial = >=1 attribute whose final state differs from the constructor keywords and '
+        'and vice versa.  The same for a deep copy of a NESTED element (child or grand-child, drawn): the copy '
+        'must equal (dump and text) a detached rebuild of the same sub-plan, and must not change when the '
+        'original\'s ancestor is removed from the root or the original subtree is mutated.  Non-trivial = >=1 attribute whose final state differs from the constructor keywords and '
         '>=1 nested child; distinct by plan.')
 ASSUMPTIONS = ['types inside the open C02 findings (matcher cannot re-add a valid word) and attributes inside the open '
                'attribute findings (xlink, xml:space, anyURI, name=) are excluded by construction and counted']
@@ -90,8 +92,16 @@ def draw_plan(data, el, depth):
     return plan
 
 
-def build(plan):
-    """returns element or raises (construction problems are not this property's subject)"""
+def build(plan, reg=None):
+    """returns element or raises (construction problems are not this property's subject); reg collects
+    id(sub-plan) -> element"""
+    e = _build(plan, reg)
+    if reg is not None:
+        reg[id(plan)] = e
+    return e
+
+
+def _build(plan, reg):
     if plan.get('stub'):
         if plan.get('v') is not None:
             # same-named siblings get different values so that a permutation among them is visible in the output
@@ -115,7 +125,7 @@ def build(plan):
         setattr(e, py_name(q.split(':')[-1]), v)
     if plan['value'] and len(plan['value']) > 1:
         e.value_ = plan['value'][1]
-    kids = [build(k) for k in plan['kids']]
+    kids = [build(k, reg) for k in plan['kids']]
     order = plan.get('order') or list(range(len(kids)))
     for i in order:
         e.add_child(kids[i])
@@ -125,7 +135,7 @@ def build(plan):
         if kids:
             j = i % len(kids)
             e.remove(kids[j])
-            kids[j] = build(plan['kids'][j])
+            kids[j] = build(plan['kids'][j], reg)
             e.add_child(kids[j])
     return e
 
@@ -202,6 +212,75 @@ def check(plan, muts, source='api'):
     return None, 'built'
 
 
+def sub_plan(plan, path):
+    for i in path:
+        plan = plan['kids'][i]
+    return plan
+
+
+def check_nested(plan, path, muts):
+    """deep copy of a NESTED element (path = child indices in the plan): the copy must equal a detached rebuild of the
+    same sub-plan, the original tree must be untouched, and afterwards the copy must not follow what happens to the
+    original's ancestors (its parent being removed from the root) nor the original subtree's mutations"""
+    s = schema()
+    t = s.element_type[plan['element']]
+    inp = {'plan': plan, 'mutations': muts, 'nested': list(path)}
+
+    def F(kind, observed):
+        return {'kind': kind, 'type': t, 'site': None, 'input': inp, 'observed': observed,
+                'expected': 'copy of the nested element equals a detached rebuild, original untouched, independent'}
+    reg = {}
+    r = call(build, plan, reg)
+    if not r.ok:
+        return None, 'unbuildable'
+    e = r.value
+    sp = sub_plan(plan, path)
+    target = reg[id(sp)]
+    top = reg[id(plan['kids'][path[0]])]
+    rt = call(build, sp)
+    if not rt.ok:
+        return None, 'unbuildable'
+    want_d, want_t = dump(rt.value), text(rt.value)
+    d0, t0, dt0 = dump(e), text(e), dump(target)
+    if dt0 != want_d:
+        return None, 'nested-differs-from-rebuild'      # not this property's subject
+    rc = call(copy.deepcopy, target)
+    if not rc.ok:
+        return F('deepcopy-raised', '%s: %s' % (rc.etype, rc.msg[:200])), 'built'
+    c = rc.value
+    if dump(e) != d0 or text(e) != t0:
+        return F('original-changed-by-copying', {'before': t0[1][:200], 'after': text(e)[1][:200]}), 'built'
+    dc, tc = dump(c), text(c)
+    if dc != want_d:
+        return F('copy-differs-structurally', _first_diff(want_d, dc)), 'built'
+    if tc != want_t:
+        return F('copy-serialises-differently', {'detached rebuild': want_t[1][:300], 'copy': tc[1][:300]}), 'built'
+    for m in muts:
+        mutate(c, m)
+    if dump(e) != d0 or text(e) != t0:
+        return F('original-affected-by-mutating-copy', {'mutations': muts}), 'built'
+    dc2, tc2 = dump(c), text(c)
+    # the original's ancestors change: the top-level child holding the target leaves the root
+    call(e.remove, top)
+    if dump(c) != dc2 or text(c) != tc2:
+        return F('copy-affected-by-mutating-original', {'mutations': [['remove-ancestor', path[0]]],
+                                                        'before': tc2[1][:200], 'after': text(c)[1][:200]}), 'built'
+    for m in list(reversed(muts)) or [['attr', 'id', 'zz9']]:
+        mutate(target, m)
+    if dump(c) != dc2 or text(c) != tc2:
+        return F('copy-affected-by-mutating-original', {'mutations': muts}), 'built'
+    return None, 'built'
+
+
+def nested_paths(plan):
+    out = []
+    for i, k in enumerate(plan['kids']):
+        out.append([i])
+        if not k.get('stub'):
+            out += [[i, j] for j in range(len(k['kids']))]
+    return out
+
+
 def _first_diff(a, b, path='root'):
     if a[:4] != b[:4]:
         return {'at': path, 'original': a[:4], 'copy': b[:4]}
@@ -216,6 +295,8 @@ def _first_diff(a, b, path='root'):
 
 def replay_case(rec):
     inp = rec['input']
+    if inp.get('nested'):
+        return check_nested(inp['plan'], inp['nested'], inp['mutations'])[0]
     return check(inp['plan'], inp['mutations'])[0]
 
 
@@ -289,5 +370,17 @@ def run_shard(ctx, shard, acc):
             acc.case({'plan': plan, 'mutations': muts}, nontrivial(plan), len(str(plan)))
         if f:
             acc.fail(f)
+        paths = nested_paths(plan)
+        if paths and status == 'built':
+            path = data.draw(st.sampled_from(paths))
+            sp = sub_plan(plan, path)
+            m2 = [] if sp.get('stub') else draw_mutations(data, sp)
+            f, status = check_nested(plan, path, m2)
+            acc.count('nested-' + status)
+            if status == 'built':
+                acc.case({'plan': plan, 'mutations': m2, 'nested': path}, len(path) > 1 or not sp.get('stub'),
+                         len(str(plan)))
+            if f:
+                acc.fail(f)
 
     hyp_search(acc, body, mix(ctx.seed, 'C14', shard['index']), ctx.budget(700, 14000))
